@@ -49,6 +49,7 @@ Init ==
     expectDisc |-> -1,      \* v5: reason code the DISCONNECT must carry (-1 = no expectation)
     appDisc |-> FALSE,      \* the application supplied / asked for its own DISCONNECT
     connDone |-> FALSE, gateStop |-> FALSE,
+    exceededRM |-> FALSE,   \* the peer had more unacknowledged QoS>0 publishes than the Receive Maximum
     ended |-> FALSE,        \* the run is over: what follows is the harness tearing things down
     router |-> FALSE,       \* the publish service is a topic router with resources "a" and "b"
     noCtl |-> FALSE         \* the endpoint variant has no observable connection-control service
@@ -125,7 +126,10 @@ OnInPublish(m, ev) ==
               st |-> "arrived", h |-> 0, acked |-> FALSE, recd |-> FALSE, rel |-> FALSE,
               comp |-> FALSE, code |-> 0, refused |-> FALSE, relProduced |-> FALSE,
               noalias |-> (unresolved \/ overMax), aliased |-> (alias > 0)]
-      m2 == [m1 EXCEPT !.pubs = Append(@, rec), !.narr = n]
+      unacked == Cardinality({k \in 1..Len(m.pubs) : m.pubs[k].q > 0 /\ ~m.pubs[k].refused
+                      /\ ~((m.pubs[k].q = 1 /\ m.pubs[k].acked) \/ (m.pubs[k].q = 2 /\ m.pubs[k].comp))})
+      m2 == [m1 EXCEPT !.pubs = Append(@, rec), !.narr = n,
+                       !.exceededRM = @ \/ (ev.q > 0 /\ m.maxReceive > 0 /\ unacked + 1 > m.maxReceive)]
   IN
   IF ~Healthy(m) THEN [m EXCEPT !.narr = n]
   ELSE IF unresolved THEN NeedProto(m2, "C17:unbound-alias-must-end-connection")
@@ -172,6 +176,13 @@ OnIn(m, ev) ==
          ELSE End([m EXCEPT !.discIn = TRUE], "peer")
     [] OTHER -> m
 
+\* payload bytes held by the publish handlers that are running
+RECURSIVE SumRunning(_, _)
+SumRunning(ps, i) ==
+  IF i > Len(ps) THEN 0
+  ELSE (IF ps[i].st = "started" THEN ps[i].size ELSE 0) + SumRunning(ps, i + 1)
+RunningBytesBefore(m) == SumRunning(m.pubs, 1)
+
 ----------------------------------------------------------------------------
 OnHStart(m, ev) ==
   IF ev.k = "hs" THEN m
@@ -209,6 +220,16 @@ OnHStart(m, ev) ==
            THEN Fail(m1, "C17:routed-to-wrong-resource")
          ELSE IF m.role = "server" /\ m.ver = 3 /\ m.maxReceive > 0 /\ run > m.maxReceive /\ Healthy(m)
            THEN Fail(m1, "C12:more-concurrent-handlers-than-max-receive")
+         ELSE IF m.role = "server" /\ m.ver = 3 /\ m.recvSize > 0 /\ Healthy(m)
+                 /\ RunningBytesBefore(m) > m.recvSize + 16
+           THEN \* the handlers already running hold more than the byte limit (payload bytes are a
+                \* lower bound of packet bytes; 16 = header slack), yet one more packet was dispatched
+                Fail(m1, "C12:more-bytes-in-flight-than-max-receive-size")
+         ELSE IF m.ver = 5 /\ m.maxReceive > 0 /\ p.q > 0 /\ Healthy(m)
+                 /\ Cardinality({k \in 1..Len(m.pubs) : m.pubs[k].n < p.n /\ m.pubs[k].q > 0
+                                     /\ ~m.pubs[k].refused /\ m.pubs[k].st # "arrived"
+                                     /\ ~PubProduced(m, m.pubs[k])}) >= m.maxReceive
+           THEN Fail(m1, "C12:publish-beyond-receive-maximum-delivered")
          ELSE m1
 
 OnHEnd(m, ev) ==
@@ -330,6 +351,10 @@ OnOutDisconnect(m, ev) ==
   IF m.ver # 5 THEN m1
   ELSE IF m.discOut >= 1 THEN Fail(m1, "C15:second-disconnect-written")
   ELSE IF m.discIn /\ ~m.discInViol THEN Fail(m1, "C15:disconnect-written-after-peers-disconnect")
+  ELSE IF ev.r = 147 /\ m.maxReceive > 0 /\ ~m.exceededRM
+          /\ Cardinality({k \in 1..Len(m.pubs) : m.pubs[k].q > 0 /\ ~m.pubs[k].refused
+                               /\ ~((m.pubs[k].q = 1 /\ m.pubs[k].acked) \/ (m.pubs[k].q = 2 /\ m.pubs[k].comp))}) <= m.maxReceive
+    THEN Fail(m1, "C12:disconnected-with-0x93-within-receive-maximum")
   ELSE IF m.expectDisc >= 0 /\ ~m.appDisc /\ ev.r # m.expectDisc THEN Fail(m1, "C15:disconnect-does-not-name-the-cause")
   ELSE IF (m.cause \in {"proto", "error"} \/ m.needProto) /\ ~m.appDisc /\ ev.r = 0
     THEN Fail(m1, "C15:error-reported-as-normal-disconnection")
